@@ -12,6 +12,8 @@ driver is accepted too (same parsers/printers, same state), so a resumed runner 
     pick <registered> <active> <resuming runs> <rows>   which handlers _on_server_start acts on
     persist <tick>                                  what is read back from the store for a processed tick
     stream <page> <n> <sequence>*n                  what SqliteWorkflowStore.stream_ticks yields for a run with these rows
+    rowmark <n> <I|S|R|P>*n                         the handler row's idle marker / the run in memory after these events
+    restartrow <n> <I|S|R|P>*n <restart arguments>  one handler of _on_server_start on the stack with the idle-release layer
 -/
 open Engine
 
@@ -52,6 +54,16 @@ def statusP : P Status := do
 def rowP : P HandlerRow := do
   let hid ← nat; let wf ← nat; let status ← statusP; let runId ← optNat; let idle ← bool
   pure { hid, wf, status, runId, idle }
+
+def rowEvP : P RowEv := do
+  match ← tok with
+  | "I" => pure .idleAnnounced
+  | "S" => pure .sendDone
+  | "R" => pure .released
+  | "P" => pure .processStop
+  | _ => fun _ => none
+
+def sMark (m : RowMark) : String := s!"idle {if m.idle then 1 else 0} mem {if m.inMemory then 1 else 0}"
 
 def sPick : Nat × Pick → String
   | (h, .notSelected) => s!"{h} not-selected"
@@ -100,6 +112,21 @@ def step (d : RState) (line : String) : RState × String :=
               let p ← policy; let tk ← ticksP; pure (now0, now, nowR, st, tmo, p, tk)) ts with
     | some ((now0, now, nowR, st, tmo, p, tk), []) =>
       match restartRun d.eng.cfg p d.legacy tk now0 (fun _ => now) nowR st tmo with
+      | .skip => (d, "skip")
+      | .markFailed e => (d, "markfailed " ++ sErr e)
+      | .finalize f => (d, "finalize " ++ sFinal f)
+      | .resume r => ({ d with eng := { d.eng with run := r, st := r.st } },
+                      "resume " ++ sRunner r ++ " ;; " ++ sState d.eng.cfg r.st)
+    | _ => (d, "bad-op")
+  | "rowmark" :: ts =>
+    match (counted rowEvP) ts with
+    | some (evs, []) => (d, sMark (RowMark.run {} evs))
+    | _ => (d, "bad-op")
+  | "restartrow" :: ts =>
+    match (do let evs ← counted rowEvP; let now0 ← int; let now ← int; let nowR ← int; let st ← opt ev; let tmo ← optNat
+              let p ← policy; let tk ← ticksP; pure (evs, now0, now, nowR, st, tmo, p, tk)) ts with
+    | some ((evs, now0, now, nowR, st, tmo, p, tk), []) =>
+      match restartHandler (RowMark.run {} evs).idle d.eng.cfg p d.legacy tk now0 (fun _ => now) nowR st tmo with
       | .skip => (d, "skip")
       | .markFailed e => (d, "markfailed " ++ sErr e)
       | .finalize f => (d, "finalize " ++ sFinal f)
